@@ -1,7 +1,7 @@
 """C06 — background merges and persists never change logical content."""
 import re
 
-GEN = False
+GEN = True       # go/extract/c06.go regenerates lean/BlugeGen/C06.lean (statements of the introductions)
 STATELESS = False      # histories: 'case' blocks, shrunk by dropping script lines
 # model branches (reported by the Lean driver on the replay of the REAL introductions) that a run must reach
 REQUIRED_BRANCHES = [
@@ -38,6 +38,8 @@ ASSUMPTIONS = [
     "shows the live documents of its root'; every reader view is compared with the model root of its epoch and with the abstract index",
 ]
 TRUSTED = [
+    "the fact extractor go/extract/c06.go (go/parser + go/printer: prints the statements of the watched functions that mention the deleted "
+    "bitmaps, the doc-number tables, the offsets and `old`; refuses when a watched function is missing)",
     "hand-written model Bluge.Index + Bluge.C06.Model (introduceMerge/ProcessSegmentNow, introducePersist, persistSnapshotMaybeMerge's equiv "
     "snapshot, executeMergeTask) tied by the gated correspondence stream `merge`",
     "the correspondence harness go/harness/c06: wrapping Directory / segment plugin / EventCallback gates and the trace hook "
